@@ -44,6 +44,10 @@ func init() {
 	register(srvFamily("C01", "c01", 1, GenC01, c01Online,
 		func(w *SrvWorld) *Violation { return c01Final(w, "C01") },
 		func(w *SrvWorld, r *RunResult) { r.Nontrivial = c01Nontrivial(w) }))
+	register(srvFamily("C09", "c09", 5, GenC09, c09Online, c09Final,
+		func(w *SrvWorld, r *RunResult) { r.Nontrivial = c09Nontrivial(w) }))
+	register(srvFamily("C09", "c09-all", 1, GenC09All, c09Online, c09Final,
+		func(w *SrvWorld, r *RunResult) { r.Nontrivial = c09Nontrivial(w) }))
 	register(srvFamily("C06", "c06", 1, GenC06, c06Online, c06Final,
 		func(w *SrvWorld, r *RunResult) { r.Nontrivial = c06Nontrivial(w) }))
 }
